@@ -8,6 +8,7 @@ import (
 
 	tcpip "github.com/brewlin/net-protocol/protocol"
 	"github.com/brewlin/net-protocol/protocol/network/ipv4"
+	"github.com/brewlin/net-protocol/protocol/ports"
 	"github.com/brewlin/net-protocol/protocol/transport/udp"
 
 	"verif/engine"
@@ -20,6 +21,7 @@ import (
 func init() {
 	engine.AddRace("C11", raceC11)
 	engine.AddRace("C09", raceC09)
+	engine.AddRace("C10", raceC10)
 }
 
 func raceRounds(tier string, q, t int) int {
@@ -151,4 +153,48 @@ func raceC09(tier string, r *engine.Result) {
 		r.AddExtra("free_running_ops", ops)
 		r.Sample(map[string]interface{}{"free_running_pass": "demux: a goroutine binding / reading / closing wildcard and specific sockets on port P while 2 goroutines deliver 150 datagrams each to A1:P", "operations": ops})
 	}
+}
+
+func raceC10(tier string, r *engine.Result) {
+	for round := 0; round < raceRounds(tier, 10, 100); round++ {
+		pm := ports.NewPortManager()
+		var wg sync.WaitGroup
+		var ops int64
+		var held [4]int32 // per tuple: number of goroutines currently holding it (must stay <= 1)
+		for g := 0; g < 4; g++ {
+			wg.Add(1)
+			go func(g int) {
+				defer wg.Done()
+				for i := 0; i < 300; i++ {
+					u := (i + g) % len(c10U)
+					tp := c10U[u]
+					if _, err := pm.ReservePort(c10Nets[tp.n], c10Trans[tp.t], c10Addrs[tp.a], tp.port); err == nil {
+						if atomic.AddInt32(&held[u], 1) > 1 {
+							panic("verif: the same reservation was granted to two goroutines at once")
+						}
+						pm.IsPortAvailable(c10Nets[tp.n], c10Trans[tp.t], c10Addrs[tp.a], tp.port)
+						atomic.AddInt32(&held[u], -1)
+						pm.ReleasePort(c10Nets[tp.n], c10Trans[tp.t], c10Addrs[tp.a], tp.port)
+					}
+					if i%7 == 0 {
+						if p, err := pm.ReservePort(c10Nets[0], c10Trans[0], c10Addrs[0], 0); err == nil {
+							pm.ReleasePort(c10Nets[0], c10Trans[0], c10Addrs[0], p)
+						}
+					}
+					atomic.AddInt64(&ops, 3)
+				}
+			}(g)
+		}
+		wg.Wait()
+		raceDoneNet(r, ops, "ports: 4 goroutines reserving / querying / releasing the 4 mutually conflicting tuples and ephemeral ports")
+	}
+}
+
+func raceDoneNet(r *engine.Result, ops int64, what string) {
+	r.Execs++
+	r.States += 2
+	r.Transitions += ops
+	r.Nontrivial++
+	r.AddExtra("free_running_ops", ops)
+	r.Sample(map[string]interface{}{"free_running_pass": what, "operations": ops})
 }
